@@ -77,7 +77,7 @@ pub fn run_corpus(rc: &RunCtx, cfg: &BConfig, layouts: &[(usize, Layout)], tag: 
                 })
                 .collect();
             crates = write_b_workspace(&dir, &prefix, &modules, cfg.ncrates, false);
-            let mut args: Vec<String> = vec!["build".into(), "--offline".into(), "--message-format=json".into()];
+            let mut args: Vec<String> = vec!["build".into(), "--offline".into(), "--keep-going".into(), "--message-format=json".into()];
             args.extend(profile_flag(profile));
             let argv: Vec<&str> = args.iter().map(|s| s.as_str()).collect();
             let out = cargo(&dir, None, &argv, "gen", &[]);
@@ -92,7 +92,7 @@ pub fn run_corpus(rc: &RunCtx, cfg: &BConfig, layouts: &[(usize, Layout)], tag: 
                 return bail(format!("the bitbybit crate does not build from /repo: {}", cargo::tail(&out.stderr, 5)));
             }
             let (by_mod, un) = cargo::attribute(&out.diags);
-            if by_mod.is_empty() || attempts > 3 {
+            if by_mod.is_empty() || attempts > 8 {
                 return bail(format!(
                     "generated corpus {} does not build (profile {}): {} unattributed errors; {}",
                     tag,
